@@ -213,8 +213,8 @@ def expected(spec, args, policy, nargs, bound_of=lambda b: b):
         return {"path": "physical-bounds:input", "status": {-1}, "bs": {-r for r in P}, "nan": True, "msg": True}
     S = viol_ranks(ins, args, "bounds")
     if S and policy == STRICT:
-        kinds = sorted({ins[r - 1]["bounds"]["kind"] for r in S})
-        return {"path": "strict:input:%s" % "+".join(kinds), "status": {-1}, "bs": {-r for r in S}, "nan": True, "msg": True}
+        # the path is named after the first violating input (the generated function returns at the first one it meets)
+        return {"path": "strict:input:%s" % ins[min(S) - 1]["bounds"]["kind"], "status": {-1}, "bs": {-r for r in S}, "nan": True, "msg": True}
     env = {v["name"]: a for v, a in zip(ins, args)}
     env.update({p["name"]: p["value"] for p in spec["params"]})
     y, en = ieee(spec["full_tree"], env)
@@ -535,6 +535,8 @@ def run(ctx):
                                           % (mpgen.fname(spec), "; ".join(d for w, d in bad if w in core(bad))), case)
                         bad, exp = b6, e6
             for what, detail in bad:
+                if what == "errno-not-restored" and "+" in exp["path"]:     # name the early-return path, not the kind of result
+                    exp = dict(exp, path=exp["path"].split("+")[-1])
                 ctx.violation("generic:%s:%s:%s" % (what, exp["path"], POLNAME[c["policy"]]) if what in ("status", "bounds_status", "errno-not-restored", "return-value")
                               else "generic:%s:%s" % (what, exp["path"]),
                               "%s(%s) policy %s: %s" % (mpgen.fname(spec), ", ".join(repr(a) for a in c["args"]), POLNAME[c["policy"]], detail), case)
